@@ -29,6 +29,12 @@ CLAIMED["C20"] = {
     "note": "Format specs with more than one level of nested braces are outside the stated scope (skipped and counted); index overflow (> isize::MAX digits) is not generated; eight narrow known findings (bracket/brace awareness of the field scanner, non-ASCII digits) are listed in KNOWN_FINDINGS.json.",
     "technique": "TLA+ machine of the reference template parser model-checked by TLC; exhaustive TLC-generated templates replayed into Rust; TLC trace validation of recorded calls; CPython cross-validation of the spec",
 }
+CLAIMED["C19"] = {
+    "text": "CPython's %-template parser is written as a TLA+ machine over 15 character classes (CFormat.tla, one action per template part) and the integer / text / character / bytes conversions as operators on real strings; TLC checks cursor/part invariants and the width and left-adjust laws, enumerates every template '%'+s with |s| <= 4/5 for text and bytes (expected parts, or rejection kind and character index) and every cell of the conversion table (12 flag sets x 6 widths x 6 precisions x types x value pools); all are replayed on CFormatString/CFormatBytes/CFormatSpec and cross-validated against CPython's % operator (0 disagreements required).",
+    "design_ref": "DESIGN.md section 6 C19",
+    "note": "'*' width/precision are resolved by the caller of this library and are compared structurally only; float conversions are covered by the float cells shared with C17 (exact dyadic values); templates mixing keyed and positional specifiers are not validated by CPython (TypeError there) but still replayed.",
+    "technique": "TLA+ machine of the reference %-template parser and conversion semantics model-checked by TLC; exhaustive TLC-generated templates and cells replayed into Rust; CPython cross-validation of the spec",
+}
 NOT_YET = {}
 
 def main():
